@@ -1939,14 +1939,38 @@ pub fn run_subject<T: Subject>(ops: &[&str], verbose: bool) -> String {
             let cd = format!("{:?}", c);
             let sr = cur.render();
             let sd = format!("{:?}", cur);
+            // the other half of Clone: clone_from onto a destination that already carries state (the last
+            // value set aside, else a builder every operation was applied to once) must leave the destination
+            // equal to the source as well; a disagreement shows in the same bits as one of clone()
+            let mut dst: T = match asides.last() {
+                Some(a) => a.value.clone(),
+                None => {
+                    let mut d = T::fresh();
+                    for (oc, _, _) in T::OPS.iter() {
+                        let _ = catch_unwind(AssertUnwindSafe(|| d.op(oc, 1)));
+                    }
+                    d
+                }
+            };
+            dst.clone_from(&cur);
+            let dr = dst.render();
+            let dd = format!("{:?}", dst);
+            let both = |x: Option<bool>, y: Option<bool>| match (x, y) {
+                (Some(a), Some(b)) => Some(a && b),
+                _ => None,
+            };
+            let worse = if dr != sr { &dr } else { &cr };
             events.push(format!(
                 "{}@{}:e{}d{}r{}",
                 if code == "clone" { "C" } else { "S" },
                 i,
-                obit(c.same(&cur)),
-                bit(cd == sd),
-                rbits(&cr, &sr)
+                obit(both(c.same(&cur), dst.same(&cur))),
+                bit(cd == sd && dd == sd),
+                rbits(worse, &sr)
             ));
+            if verbose && (dd != sd || dr != sr) {
+                log.push_str(&format!("[{}] clone_from onto a used destination\n  source: {}\n  dest  : {}\n", i, sd, dd));
+            }
             if verbose {
                 log.push_str(&format!("[{}] {}\n  source: {}\n  clone : {}\n", i, code, sd, cd));
             }
